@@ -48,7 +48,9 @@ theorem C20_total (σ : Env) (fmt : Bytes) : ∃ out, replace σ fmt = .ok out :
 /-- Values are inserted verbatim and the rest of the line does not depend on them: a format
 `pre{body}rest` (no `{` in `pre`, no `}` in `body`, neither ending in a backslash) expands to
 `pre` (unescaped, one leading backslash dropped) ++ the value of `{body}`, whatever bytes it
-contains ++ the expansion of `rest`. -/
+contains ++ the expansion of `rest`.  (`v` is what `getSubstitution` returns: request text as it
+is, except that CR and LF of decoded or middleware-supplied text are written `\\r` `\\n` — see
+`C20_one_physical_line`; braces, backslashes and everything else are untouched.) -/
 theorem C20_values_verbatim (σ : Env) (pre body rest v out : Bytes)
     (hpre : ∀ x ∈ pre, x ≠ lbr) (hpe : endsBsl false pre = false)
     (hbody : ∀ x ∈ body, x ≠ rbr) (hbe : endsBsl false body = false)
@@ -135,13 +137,42 @@ theorem C20_escaped_literal (σ : Env) (s : Bytes) (h : splitUnesc lbr false s =
 example : splitUnesc lbr false (asc "a\\{method\\}b\\{") = none := by decide
 example : okIs (replace { method := asc "GET" } (asc "\\{method\\} {method}")) (asc "{method} GET") = true := by decide
 
+/-- One record, one physical line: if the format's own text has no CR/LF and the parts of the
+request that net/http hands over undecoded (header fields, cookies, host, method, raw query, request
+URI, remote address) or that the operator controls (empty marker, environment) have none, the
+expansion has none — WHATEVER the decoded parts contain (URL path, query arguments, fragment,
+custom values such as the basic auth user name): those go through `oneLine`. -/
+theorem C20_one_physical_line (σ : Env) (fmt out : Bytes) (hf : litsHaveLineBreak fmt = false)
+    (he : envHasLineBreak σ = false) (ho : replace σ fmt = .ok out) : hasLineBreak out = false := by
+  rw [C20_single_pass] at ho
+  unfold expected at ho
+  unfold litsHaveLineBreak at hf
+  cases hp : parseFmt fmt with
+  | none => simp [hp] at hf
+  | some segs =>
+    simp only [hp] at hf ho
+    exact render_clean σ (envClean_of he) segs out hf ho
+
+/-- test: a path with a decoded newline and a basic auth user with CR LF; the default-style format
+stays on one line (the hypotheses of `C20_one_physical_line` hold: path and custom are free) -/
+example :
+    let σ : Env := { origPath := [47, 97, 10, 98], custom := [(asc "{user}", [101, 13, 10, 102])], method := asc "GET" }
+    litsHaveLineBreak (asc "{user} {method} {path}") = false ∧ envHasLineBreak σ = false ∧
+    okIs (replace σ (asc "{user} {method} {path}")) (asc "e\\r\\nf GET /a\\nb") = true := by
+  decide
+
 /-- Model and judge are one spec: the verdict the driver applies to the real code's output is
 "ok" on the model's own output, for every format and request. -/
 theorem C20_replace_model_verdict_ok (σ : Env) (fmt : Bytes) :
     verdict σ fmt (observe (replace σ fmt)) = "ok" := by
   obtain ⟨out, ho⟩ := C20_total σ fmt
   have he : expected σ fmt = .ok out := by rw [← C20_single_pass, ho]
-  simp [ho, observe, verdict, he]
+  by_cases hl : (hasLineBreak out && !(litsHaveLineBreak fmt) && !(envHasLineBreak σ)) = true
+  · simp only [Bool.and_eq_true, Bool.not_eq_true'] at hl
+    have := C20_one_physical_line σ fmt out hl.1.2 hl.2 ho
+    rw [this] at hl
+    exact absurd hl.1.1 (by simp)
+  · simp [ho, observe, verdict, he, hl]
 
 /-- the judge is not vacuous: an implementation that expands inserted text again is rejected -/
 example :
